@@ -83,6 +83,11 @@ class OpsMixin:
 
     # ---------------------------------------------------------------- binop
     def binop(self, op, a, b):
+        if type(a).__name__ == "SymBlob" or type(b).__name__ == "SymBlob":
+            from . import blob
+            if isinstance(op, ast.Add):
+                return blob.concat(self, [a, b])
+            raise Unsupported("blob operator")
         if isinstance(a, (SymDT, SymTD)) or isinstance(b, (SymDT, SymTD)):
             from . import dtmodels
             return dtmodels.binop(self, op, a, b)
@@ -489,6 +494,12 @@ class OpsMixin:
             if t is ast.NotIn:
                 return self.not_(r)
             return r
+        if type(a).__name__ == "SymBlob" or type(b).__name__ == "SymBlob":
+            from . import blob
+            if t in (ast.Eq, ast.NotEq):
+                r = blob.equal(self, a, b)
+                return self.not_(r) if t is ast.NotEq else r
+            raise Unsupported("blob ordering")
         if isinstance(a, (SymDT, SymTD)) or isinstance(b, (SymDT, SymTD)):
             from . import dtmodels
             return dtmodels.compare(self, t, a, b)
